@@ -751,6 +751,28 @@ func (in *Interp) resolveLocal(st *State, t *Term) *Term {
 			} else if in.isZeroPath(st, a.Path) {
 				return Const(0)
 			}
+		case "sum":
+			if v, ok := in.lookupPath(st, a.Path); ok {
+				if sv, ok := v.(SliceV); ok && sv.Path == "" && sv.Base == "" {
+					total := Const(0)
+					for _, e := range sv.Elems {
+						switch ev := e.(type) {
+						case ObjV:
+							total = total.Add(a.Sub[0].Reroot2(a.Path+"[*]", ev.Path))
+						case SpreadV:
+							total = total.Add(Sum(ev.S.Path, a.Sub[0].Reroot2(a.Path+"[*]", ev.S.Path+"[*]")))
+						default:
+							return nil
+						}
+					}
+					return total
+				}
+				if _, isNil := v.(NilV); isNil {
+					return Const(0)
+				}
+			} else if in.isZeroPath(st, a.Path) {
+				return Const(0)
+			}
 		case "len":
 			if v, ok := in.lookupPath(st, a.Path); ok {
 				switch vv := v.(type) {
@@ -776,6 +798,12 @@ func (in *Interp) lookupPath(st *State, path string) (Val, bool) {
 	if v, ok := st.fields[path]; ok {
 		return v, true
 	}
+	if src, ok := copySource(st, path); ok {
+		if v, ok := in.lookupPath(st, src); ok {
+			return v, true
+		}
+		return nil, false
+	}
 	// follow pointer fields: longest stored prefix that holds an ObjV
 	parts := strings.Split(path, ".")
 	for i := len(parts) - 1; i >= 1; i-- {
@@ -790,6 +818,9 @@ func (in *Interp) lookupPath(st *State, path string) (Val, bool) {
 }
 
 func (in *Interp) isZeroPath(st *State, path string) bool {
+	if src, ok := copySource(st, path); ok {
+		return in.isZeroPath(st, src)
+	}
 	root := path
 	if i := strings.Index(path, "."); i >= 0 {
 		root = path[:i]
